@@ -7,6 +7,8 @@ prints the implementation's.
 import A10Verif.Model.Basic
 import A10Verif.Model.Addr
 import A10Verif.Model.Life
+import A10Verif.Model.CqRing
+import A10Verif.Model.Encode
 import A10Verif.Model.SqRing
 import A10Verif.Model.Wake
 import A10Verif.Model.Blocked
@@ -20,6 +22,8 @@ open A10
 
 structure DriverState where
   life : Life.Sys := {}
+  cq : CqRing.St := CqRing.init
+  encode : Encode.St := Encode.init
   sq : SqRing.St := SqRing.init 1 0 0
   wake : Wake.St := {}
   blk : Blocked.St := Blocked.init 1 0 0
@@ -38,6 +42,8 @@ def dispatch (st : DriverState) (toks : List String) : DriverState × List Strin
   | "blk" :: _ => let (s, o) := Blocked.stepLine st.blk toks; ({ st with blk := s }, o)
   | "wake" :: _ => let (s, o) := Wake.stepLine st.wake toks; ({ st with wake := s }, o)
   | "sq" :: _ => let (s, o) := SqRing.stepLine st.sq toks; ({ st with sq := s }, o)
+  | "encode" :: _ => let (s, o) := Encode.stepLine st.encode toks; ({ st with encode := s }, o)
+  | "cq" :: _ => let (s, o) := CqRing.stepLine st.cq toks; ({ st with cq := s }, o)
   | "life" :: _ => let (s, o) := Life.stepLine st.life toks; ({ st with life := s }, o)
   | _ => (st, ["bad-op"])
 
